@@ -288,8 +288,31 @@ DigitsVal(s, acc) ==
   ELSE IF acc > (MaxInt - (Head(s) - 48)) \div 10 THEN -1
   ELSE DigitsVal(Tail(s), acc * 10 + (Head(s) - 48))
 
-\* StringToNumber (7.1.4.1.1).  Sound on the modelled domain: spellings with fraction, exponent
-\* or radix prefix give OOM rather than a guess.
+RECURSIVE SkipDigits(_, _)
+\* index of the first unit at or after i that is not a decimal digit
+SkipDigits(s, i) == IF i <= Len(s) /\ IsDigit(s[i]) THEN SkipDigits(s, i + 1) ELSE i
+
+\* StrUnsignedDecimalLiteral other than Infinity: digits [. digits*] [exp] | . digits [exp]
+IsDecimalLit(b) ==
+  LET i1 == SkipDigits(b, 1)
+      hasInt == i1 > 1
+      hasDot == i1 <= Len(b) /\ b[i1] = 46
+      i2 == IF hasDot THEN SkipDigits(b, i1 + 1) ELSE i1
+      hasFrac == hasDot /\ i2 > i1 + 1
+      hasExp == i2 <= Len(b) /\ b[i2] \in {101, 69}
+      i3 == IF hasExp THEN (IF i2 + 1 <= Len(b) /\ b[i2 + 1] \in {43, 45} THEN i2 + 2 ELSE i2 + 1) ELSE i2
+      i4 == IF hasExp THEN SkipDigits(b, i3) ELSE i2
+  IN (hasInt \/ hasFrac) /\ (~hasExp \/ i4 > i3) /\ i4 = Len(b) + 1
+
+\* NonDecimalIntegerLiteral: 0x.. 0o.. 0b.. (no sign)
+IsNonDecimalLit(s) ==
+  /\ Len(s) >= 3 /\ s[1] = 48
+  /\ \/ (s[2] \in {120, 88} /\ \A i \in 3..Len(s) : IsDigit(s[i]) \/ (s[i] >= 97 /\ s[i] <= 102) \/ (s[i] >= 65 /\ s[i] <= 70))
+     \/ (s[2] \in {111, 79} /\ \A i \in 3..Len(s) : s[i] >= 48 /\ s[i] <= 55)
+     \/ (s[2] \in {98, 66} /\ \A i \in 3..Len(s) : s[i] \in {48, 49})
+
+\* StringToNumber (7.1.4.1.1): the StringNumericLiteral grammar is decided exactly; literals with a fraction,
+\* an exponent or a radix prefix have values outside the modelled subset (OOM)
 StrToNum(s0) ==
   LET s == TrimRight(TrimLeft(s0))
       neg == s # <<>> /\ s[1] = 45
@@ -299,7 +322,7 @@ StrToNum(s0) ==
        [] body # <<>> /\ AllDigits(body) ->
             LET n == DigitsVal(body, 0)
             IN IF n = -1 THEN OOM ELSE IF n = 0 THEN SignedZero(neg) ELSE Num(IF neg THEN -n ELSE n)
-       [] body # <<>> /\ (IsDigit(body[1]) \/ body[1] = 46) -> OOM
+       [] IsDecimalLit(body) \/ IsNonDecimalLit(s) -> OOM
        [] OTHER -> NaN
 
 RECURSIVE StrLess(_, _)
